@@ -23,6 +23,8 @@ struct BVec {
 	size_t size() const { return n; }
 	void resize(size_t k) { if (k > 8) { overflow = true; k = 8; } for (size_t i = n; i < k; i++) d[i] = 0; n = k; }
 	int& emplace_back() { if (n >= 8) { overflow = true; return d[7]; } d[n] = 0; return d[n++]; }
+	void push_back(int v) { emplace_back() = v; } void clear() { n = 0; } bool empty() const { return n == 0; } void reserve(size_t) {}
+	int& operator[](size_t i) { return d[i]; } int& back() { return d[n ? n - 1 : 0]; } void pop_back() { if (n) n--; }
 };
 // ---- harness array scope: K items with symbolic values, estimated size E
 struct MockArr {
@@ -91,6 +93,10 @@ struct BMap {             // capacity 6, int64 -> int, insertion order; the memb
 	iterator find(int64_t k) { for (size_t i = 0; i < 6; i++) if (i < n && e[i].first == k) return e + i; return end(); }
 	iterator try_emplace(iterator, int64_t k) { iterator it = find(k); if (it != end()) return it; if (n >= 6) { overflow = true; return e + 5; } e[n].first = k; e[n].second = 0; return e + n++; }
 	int& operator[](int64_t k) { return try_emplace(end(), k)->second; }
+	// (rest of the std::map surface a loader could reasonably touch)
+	size_t size() const { return n; } bool empty() const { return n == 0; } size_t count(int64_t k) { return find(k) != end() ? 1 : 0; }
+	iterator erase(iterator it) { for (iterator p = it; p + 1 < end(); ++p) *p = *(p + 1); if (n) n--; return it; }
+	size_t erase(int64_t k) { iterator it = find(k); if (it == end()) return 0; erase(it); return 1; }
 };
 struct MockObj {
 	using supported_key_types = TSupportedKeyTypes<std::string, int64_t>;
